@@ -120,13 +120,9 @@ func cmdVerify(args []string) {
 	timeout := fs.Int("t", 10000, "solver timeout ms")
 	fs.Parse(args)
 	t0 := time.Now()
-	c, err := loadCtx(*repo, nil)
+	c, err := loadAll(*repo, nil)
 	if err != nil {
-		fmt.Fprintln(os.Stderr, "load:", err)
-		os.Exit(3)
-	}
-	if err := c.loadContracts(verifDir() + "/lib"); err != nil {
-		fmt.Fprintln(os.Stderr, "contracts:", err)
+		fmt.Fprintln(os.Stderr, err)
 		os.Exit(3)
 	}
 	var re *regexp.Regexp
@@ -142,6 +138,11 @@ func cmdVerify(args []string) {
 	}
 	var all []*Obligation
 	facts := map[*Obligation][]*Term{}
+	for _, ob := range c.lemmaObls {
+		if re == nil || re.MatchString(ob.Name) {
+			all = append(all, ob)
+		}
+	}
 	for _, r := range res {
 		if r.err != nil {
 			fmt.Printf("ERROR %s\n", r.err)
@@ -187,5 +188,5 @@ func cmdVerify(args []string) {
 }
 
 func cmdReplay(args []string)   { fmt.Println("replay: not implemented yet"); os.Exit(2) }
-func cmdSelftest(args []string) { fmt.Println("selftest: not implemented yet"); os.Exit(2) }
+
 
